@@ -1,10 +1,19 @@
 import SaModel.Generated.ConstantsExt
+import SaModel.Generated.ConstantsExtUtils
 import SaModel.Ext.Fields
+import SaModel.Lemmas.C20Gen
+import SaModel.Props.C20
 /-
 Translation obligation (C20, C16): the metadata keys, extension names, the literal pieces of the extension metadata text,
 the `"element"` name check and the child field names of schema/extensions/{bool8_field, fixed_shape_tensor_field,
 variable_shape_tensor_field}.rs, as the translator reads them out of the sources NOW (`Generated.ConstantsExt`), are the
 literals the hand-written model `SaModel/Ext/Fields.lean` uses: the model functions are restated with the generated texts.
+
+Second part (`Generated.ConstantsExtUtils`): the BODIES of schema/extensions/utils.rs.  The `match` of `JsonString::fmt` as an
+ordered arm table, the statements of `check_permutation` / `check_dim_names` and the pieces of `write_list`, interpreted by
+`SaModel/Ext/UtilsGen.lean`, are the hand-written model `SaModel/Ext/Utils.lean` for ALL inputs; each proof is a `decide`d
+criterion on the table (which a harmless rewrite of the source still satisfies) and the soundness lemma of that criterion
+(`SaModel/Lemmas/C20Gen.lean`), so the theorems of `Props/C20.lean` transfer to the text the source produces.
 -/
 namespace SaModel.Props.ConstGenExt
 open SaModel SaModel.Ext SaModel.Generated
@@ -120,5 +129,92 @@ theorem variable_storage_model {ε} (element : ε) (ndim : Nat) :
       .mk "shape" false (.fixedSizeList (.mk "element" false .int32 []) ndim) []] := rfl
 
 example : checkPermutation 2 [0, 0] = fail ("Invalid permutation: index" ++ " found multiple times") := by decide +kernel
+
+/-! ### the bodies of `utils.rs` (`Generated.ConstantsExtUtils`) -/
+
+open SaModel.Lemmas.C20Gen SaModel.Ext.Json
+
+/-- the arm table read from `JsonString::fmt` passes the criterion (`armsOk`: literal arms and guard bounds below U+0080, a
+catch-all arm that copies, and agreement with `escapeChar` on each of the 128 characters below U+0080) -/
+theorem gen_escape_arms_ok : armsOk ConstantsExtUtils.jsonStringArms = true := by decide +kernel
+
+/-- for EVERY character the arms of the source, in their order, write what the model's `escapeChar` writes -/
+theorem gen_escape_char (c : Char) : escapeCharGen ConstantsExtUtils.jsonStringArms c = escapeChar c :=
+  armsOk_sound _ gen_escape_arms_ok c
+
+example : escapeCharGen ConstantsExtUtils.jsonStringArms (Char.ofNat 0x1f) = "\\u001f".toList := by decide +kernel
+example : escapeCharGen ConstantsExtUtils.jsonStringArms '"' = ['\\', '"'] := by decide +kernel
+example : escapeCharGen ConstantsExtUtils.jsonStringArms ' ' = [' '] := by decide +kernel
+/-- the criterion is not vacuous: the table of seeded regression c20a (`c if c < '\u{1f}'`) does not pass it -/
+example : armsOk [.lit '"' "\\\"", .lit '\\' "\\\\", .lit '\n' "\\n", .lit '\r' "\\r", .lit '\t' "\\t",
+    .hexBelow 31 "\\u" true 4 false "", .copy] = false := by decide +kernel
+
+theorem gen_json_string_delimiters :
+    ConstantsExtUtils.jsonStringOpen.toList = ['"'] ∧ ConstantsExtUtils.jsonStringClose.toList = ['"'] := by decide +kernel
+
+/-- `JsonString::fmt` as translated (opening text, the loop over the characters with the arm table, closing text) writes the
+model's `jsonString s` for every string -/
+theorem gen_json_string (s : Str) :
+    jsonStringGen ConstantsExtUtils.jsonStringOpen ConstantsExtUtils.jsonStringArms ConstantsExtUtils.jsonStringClose s = jsonString s := by
+  unfold jsonStringGen jsonString
+  rw [gen_json_string_delimiters.1, gen_json_string_delimiters.2, escapeGen_eq _ gen_escape_arms_ok]
+  rfl
+
+/-- `Props.C20.json_string_round_trip` for the text the SOURCE's arms produce: it reads back as exactly the string -/
+theorem gen_json_string_round_trip (s more : Str) :
+    readScalar (jsonStringGen ConstantsExtUtils.jsonStringOpen ConstantsExtUtils.jsonStringArms ConstantsExtUtils.jsonStringClose s ++ more)
+      = some (.str s, more) := by
+  rw [gen_json_string]
+  exact SaModel.Props.C20.json_string_round_trip s more
+
+example : jsonStringGen ConstantsExtUtils.jsonStringOpen ConstantsExtUtils.jsonStringArms ConstantsExtUtils.jsonStringClose
+    ['a', '"', Char.ofNat 1] = "\"a\\\"\\u0001\"".toList := by decide +kernel
+
+/-- the statements read from `check_permutation` pass the criterion (`permBodyOk`: length comparison, `seen` of `len` times
+`false`, loop = range guard / `seen[i]` → error / `seen[i] = true`, final loop over `seen` failing on `false`, `Ok(())`) -/
+theorem gen_check_permutation_body_ok : permBodyOk ConstantsExtUtils.checkPermutationBody = true := by decide +kernel
+
+/-- for ALL arguments the translated statements of `check_permutation` have the outcome (Ok / Err / panic) of the model -/
+theorem gen_check_permutation (ndim : Nat) (p : List Nat) :
+    (checkPermutationGen ConstantsExtUtils.checkPermutationBody ndim p).cls = (checkPermutation ndim p).cls :=
+  permBodyOk_sound _ gen_check_permutation_body_ok ndim p
+
+/-- `Props.C20.perm_iff` for the statements of the SOURCE: accepted iff `ndim` entries that are a rearrangement of `0..ndim` -/
+theorem gen_check_permutation_iff (ndim : Nat) (p : List Nat) :
+    (checkPermutationGen ConstantsExtUtils.checkPermutationBody ndim p).cls = "ok" ↔ p.length = ndim ∧ p.Perm (List.range ndim) := by
+  rw [gen_check_permutation, ← SaModel.Props.C20.perm_iff]
+  cases h : checkPermutation ndim p with
+  | ok u => simp [R.cls]
+  | error e => cases e <;> simp [R.cls]
+
+example : checkPermutationGen ConstantsExtUtils.checkPermutationBody 3 [2, 0, 1] = .ok () := by decide +kernel
+example : (checkPermutationGen ConstantsExtUtils.checkPermutationBody 3 [2, 0, 2]).cls = "err" := by decide +kernel
+example : (checkPermutationGen ConstantsExtUtils.checkPermutationBody 2 [2, 0]).cls = "err" := by decide +kernel
+/-- pinned defect #3 (`seen[i] = true;` missing): the statement list does not pass the criterion, and its interpretation
+rejects the permutation `[1, 0]` as the pinned crate did -/
+example : permBodyOk [.failIf .sliceLen .ne .ndim, .letSeen false .sliceLen,
+    .forSlice [.failIf .item .ge .seenLen, .failIfSeen .item true], .forSeen false, .retOk] = false := by decide +kernel
+example : (checkPermutationGen [.failIf .sliceLen .ne .ndim, .letSeen false .sliceLen,
+    .forSlice [.failIf .item .ge .seenLen, .failIfSeen .item true], .forSeen false, .retOk] 2 [1, 0]).cls = "err"
+    ∧ (checkPermutationPinned 2 [1, 0]).cls = "err" ∧ (checkPermutation 2 [1, 0]).cls = "ok" := by decide +kernel
+
+theorem gen_check_dim_names_body_ok : dimBodyOk ConstantsExtUtils.checkDimNamesBody = true := by decide +kernel
+
+/-- `check_dim_names` as translated: the outcome of the model for all arguments -/
+theorem gen_check_dim_names (ndim : Nat) (names : List Str) :
+    (checkDimNamesGen ConstantsExtUtils.checkDimNamesBody ndim names).cls = (checkDimNames ndim names).cls :=
+  dimBodyOk_sound _ gen_check_dim_names_body_ok ndim names
+
+example : (checkDimNamesGen ConstantsExtUtils.checkDimNamesBody 2 [['x'], ['y']]).cls = "ok" := by decide +kernel
+example : (checkDimNamesGen ConstantsExtUtils.checkDimNamesBody 2 [['x']]).cls = "err" := by decide +kernel
+
+theorem gen_write_list_body_ok : writeListOk ConstantsExtUtils.writeListBody = true := by decide +kernel
+
+/-- `write_list` as translated (`[`, the first item bare, every later item after `,`, `]`) writes the model's text -/
+theorem gen_write_list (items : List Str) : writeListGen ConstantsExtUtils.writeListBody items = writeList items :=
+  writeListOk_sound _ gen_write_list_body_ok items
+
+example : writeListGen ConstantsExtUtils.writeListBody [['1'], ['2'], ['3']] = "[1,2,3]".toList := by decide +kernel
+example : writeListGen ConstantsExtUtils.writeListBody [] = "[]".toList := by decide +kernel
 
 end SaModel.Props.ConstGenExt
